@@ -1212,6 +1212,7 @@ func (r *runner) startIdxAtFirst() ([]int, error) { return r.first, nil }
 
 func main() {
 	Main("C03", "C03K", func(c *Ctx) error {
+		nofile := NoFileLimit()
 		if c.Replay != nil {
 			cursor.VC11SetHook(c03Hook)
 			var rp Replay
@@ -1272,6 +1273,14 @@ func main() {
 			// every in-process server leaves the descriptors of its chunk writers open (the journal controller
 			// has no Shutdown, see C07): stay well below RLIMIT_NOFILE; the thorough tier uses more seeds instead
 			n = 900
+		}
+		// (the deterministic streams and these cases were taken at 40 descriptors a case (a run that held 20000 had about 1300 cases): NoFileLimit
+		// raised the limit where it may; where it may not, the generated cases are cut to what the limit carries)
+		if budget := (int(nofile) - 2000) / 40; len(jobs)+len(bulk)+n > budget {
+			n = budget - len(jobs) - len(bulk)
+			if n < 50 {
+				n = 50
+			}
 		}
 		for i := 0; i < n; i++ {
 			jobs = append(jobs, job{gen: root.Fork()})
